@@ -484,8 +484,7 @@ func (q *SendType) inferModality(labelledTypesEnv LabelledTypesEnv, usedLabels m
 		return q.Mode
 	}
 
-	leftUsedLabel := copyMap(usedLabels)
-	leftMode := q.Left.inferModality(labelledTypesEnv, leftUsedLabel)
+	leftMode := q.Left.inferModality(labelledTypesEnv, usedLabels)
 	rightMode := q.Right.inferModality(labelledTypesEnv, usedLabels)
 
 	commonMode := commonMode(leftMode, rightMode)
@@ -506,8 +505,7 @@ func (q *ReceiveType) inferModality(labelledTypesEnv LabelledTypesEnv, usedLabel
 		return q.Mode
 	}
 
-	leftUsedLabel := copyMap(usedLabels)
-	leftMode := q.Left.inferModality(labelledTypesEnv, leftUsedLabel)
+	leftMode := q.Left.inferModality(labelledTypesEnv, usedLabels)
 	rightMode := q.Right.inferModality(labelledTypesEnv, usedLabels)
 
 	commonMode := commonMode(leftMode, rightMode)
@@ -524,8 +522,7 @@ func (q *SelectLabelType) inferModality(labelledTypesEnv LabelledTypesEnv, usedL
 
 	var commonModes []Modality
 	for _, branch := range q.Branches {
-		usedLabelsCopy := copyMap(usedLabels)
-		branchMode := branch.SessionType.inferModality(labelledTypesEnv, usedLabelsCopy)
+		branchMode := branch.SessionType.inferModality(labelledTypesEnv, usedLabels)
 		commonModes = append(commonModes, branchMode)
 	}
 
@@ -543,8 +540,7 @@ func (q *BranchCaseType) inferModality(labelledTypesEnv LabelledTypesEnv, usedLa
 
 	var commonModes []Modality
 	for _, branch := range q.Branches {
-		usedLabelsCopy := copyMap(usedLabels)
-		branchMode := branch.SessionType.inferModality(labelledTypesEnv, usedLabelsCopy)
+		branchMode := branch.SessionType.inferModality(labelledTypesEnv, usedLabels)
 		commonModes = append(commonModes, branchMode)
 	}
 
